@@ -20,7 +20,7 @@ import sys
 HERE = os.path.dirname(os.path.abspath(__file__))
 VERIF = os.path.dirname(HERE)
 REPO = os.environ.get("REPO", "/repo")
-SCRATCH = "/root/scratch/gen"
+SCRATCH = os.environ.get("PY2LEAN_SCRATCH", "/root/scratch/gen")
 WT = os.path.join(SCRATCH, "wt")
 LEAN = os.path.join(SCRATCH, "lean")
 
